@@ -164,6 +164,24 @@ bool property_enumerate(const vf::EmitFn& emit) {
         }
       }
   }
+  // dotted-decimal hosts of every length from 7 to 16 bytes: parts over {0, 9, 10, 99, 100, 255, 256},
+  // with and without the trailing dot, special and non-special scheme, with and without credentials/port
+  {
+    static const unsigned parts[] = {0, 9, 10, 99, 100, 255, 256};
+    static const char* pre[] = {"http://", "https://u:p@", "foo://"};
+    static const char* post[] = {"/", ":8080/x", ""};
+    char buf[64];
+    for (unsigned a : parts) for (unsigned b2 : parts) for (unsigned c2 : parts) for (unsigned d : parts)
+      for (int dot = 0; dot < 2; dot++) {
+        snprintf(buf, sizeof buf, "%u.%u.%u.%u%s", a, b2, c2, d, dot ? "." : "");
+        for (int k = 0; k < 3; k++) {
+          std::string in = std::string(pre[k]) + buf + post[(a + d + (unsigned)k) % 3];
+          auto v = vf::encode_raw_case(in, nullptr, {});
+          v.push_back(0); v.push_back(0); v.push_back(0);
+          emit(v);
+        }
+      }
+  }
   for (auto& sk : sks)
     for (auto b : bases)
       for (uint32_t cp : cps) {
